@@ -22,7 +22,6 @@ Definition fixed : mode := {| fix1 := true; fix7 := true; memo := true |}.
 Definition fixed_nomemo : mode := {| fix1 := true; fix7 := true; memo := false |}.
 
 (** ** grouped_field_set.go *)
-Record fnode := { fn_name : name; fn_pos : pos; fn_sub : list selection }.       (* *ast.Field *)
 Record group := { g_key : name; g_first : fnode; g_more : list fnode }.          (* Fields is never empty *)
 Definition g_fields (g : group) : list fnode := g_first g :: g_more g.
 Definition gfs := list group.
